@@ -48,6 +48,54 @@ def make_face_class():
     return MemFace
 
 
+def make_stream_face_class():
+    """an in-memory face that IS a StreamFace (what an application connected to a forwarder over a Unix / TCP socket has):
+    everything written to its writer - by face.send or directly - is kept, one entry per write"""
+    from ndn.transport.stream_face import StreamFace
+
+    class _Writer:
+        def __init__(self, sent):
+            self.sent = sent
+            self.closed = 0
+
+        def write(self, d):
+            self.sent.append(bytes(d))
+
+        def writelines(self, ds):
+            for d in ds:
+                self.sent.append(bytes(d))
+
+        async def drain(self):
+            pass
+
+        def is_closing(self):
+            return False
+
+        def close(self):
+            self.closed += 1
+
+    class MemStreamFace(StreamFace):
+        def __init__(self):
+            super().__init__()
+            self.sent = []
+            self.writer = _Writer(self.sent)
+            self.running = True
+
+        async def open(self):
+            self.running = True
+
+        def shutdown(self):
+            self.running = False
+
+        async def run(self):
+            while self.running:
+                await asyncio.sleep(3600)
+
+        def isLocalFace(self):
+            return True
+    return MemStreamFace
+
+
 def make_registerer_class():
     _, _, PrefixRegisterer = _mods()
 
@@ -67,9 +115,10 @@ def make_registerer_class():
 
 
 class AppRig:
-    def __init__(self, front_end='v2', t0=1000.0):
+    def __init__(self, front_end='v2', t0=1000.0, face_kind='mem'):
         self.front_end = front_end
         self.t0 = t0
+        self.face_kind = face_kind      # 'mem': a plain Face subclass; 'stream': a StreamFace subclass (byte stream)
 
     def __enter__(self):
         utils, _, _ = _mods()
@@ -82,7 +131,7 @@ class AppRig:
         self._utils = utils
         self._old_time = utils.time
         utils.time = _T
-        self.face = make_face_class()()
+        self.face = (make_stream_face_class() if self.face_kind == 'stream' else make_face_class())()
         if self.front_end == 'v2':
             from ndn import appv2
             self.registerer = make_registerer_class()()
